@@ -152,6 +152,7 @@ fn accept_set(seed: u64, tier: Tier, cbal: u64, mbal: u64, amt: i64, full: bool)
         sx::set_label("verify");
         let res = e.w.merchant.allow_payment(&mut e.rng, amount(amt), &e.nonce, proof, &e.pctx);
         let c = challenge_under("verify");
+        eng::set_cex_unknowns(&e.at.iter().filter(|a| !a.path.ends_with(".commitment") && !a.path.ends_with("sigma1")).map(|a| a.term()).chain(std::iter::once(c.term())).collect::<Vec<_>>());
         let r = pay_reference(&e, c);
         n_conj = r.len();
         // feasibility of flipped paths is not classified here (cost); the obligations below are sound either way
